@@ -331,6 +331,8 @@ def campaign(prop: str, tier: str, verif_seed: int, spec: dict, workers: int | N
             "wall_s": round(wall, 2),
             "violations": len(reported),
         }
+        if hasattr(E, "evidence_extra"):
+            ev["coverage"].update(E.evidence_extra())
         os.makedirs(EVIDENCE, exist_ok=True)
         with open(os.path.join(EVIDENCE, f"{prop}.json"), "w") as fh:
             json.dump(ev, fh, indent=1, sort_keys=True, default=str)
